@@ -7,7 +7,7 @@ import ast
 from ..lin import Lin, Infeasible
 from ..avals import *   # noqa
 from ..avals import value_tags
-from ..decide import Runs, need_ge0, need_eq0, definite, soft, iterations
+from ..decide import require_instances, Runs, need_ge0, need_eq0, definite, soft, iterations
 from ..report import Ob, PROVED, REFUTED, UNDECIDED, func_where, ASSUMPTIONS, Failure, find_witness
 from ..model import norm_text, AnalysisError
 from .decode import DecodeUnits
@@ -90,6 +90,8 @@ def check(prog, res, tier):
                                              for p in ps if p.outcome == 'return'][:3]))
 
     # ---- C08.c declared lengths are non-negative
+    seen_c = {}
+
     def chk_c(unit_name):
         def chk(p, mode):
             fails = []
@@ -104,6 +106,7 @@ def check(prog, res, tier):
                 wire_dep = any(('wire-int' in _sym_tags(p, s)) for s in st.canon(d).syms())
                 if not wire_dep:
                     continue
+                seen_c[unit_name] = seen_c.get(unit_name, 0) + (mode == 'inv')
                 if not st.prove_ge0(d):
                     fails.append(Failure(f'length parsed from the message may be negative: slice {norm_text(e.node)} has '
                                          f'extent {st.canon(d)} in {st.bounds(d)}', node=e.node, neg=[[-d - 1]]))
@@ -114,13 +117,16 @@ def check(prog, res, tier):
                     fails.append(Failure(f'cursor increment {st.canon(inc)} may be negative', neg=[[-inc - 1]]))
             return fails
         return chk
-    res.add(uf.runs.judge('C08.c', 'every length parsed from the message is non-negative where it frames data',
-                          func_where(ffi), 'field_length = int(field_length_string)', chk_c(fname),
-                          rule='C08.c.field'))
+    res.add(require_instances(
+        uf.runs.judge('C08.c', 'every length parsed from the message is non-negative where it frames data',
+                      func_where(ffi), 'field_length = int(field_length_string)', chk_c(fname), rule='C08.c.field'),
+        seen_c.get(fname), 'a slice whose extent is a length parsed from the message'))
     if 'pds' in du.units:
         up = du.units['pds']
-        res.add(up.runs.judge('C08.c', 'every PDS sub-element length parsed from the message is non-negative',
-                              func_where(up.fi), 'pds_field_length = int(...)', chk_c(up.name), rule='C08.c.pds'))
+        res.add(require_instances(
+            up.runs.judge('C08.c', 'every PDS sub-element length parsed from the message is non-negative',
+                          func_where(up.fi), 'pds_field_length = int(...)', chk_c(up.name), rule='C08.c.pds'),
+            seen_c.get(up.name), 'a slice whose extent is a length parsed from the message'))
 
     # ---- C08.e not too strict
     def chk_e(p, mode):
@@ -165,6 +171,8 @@ def check(prog, res, tier):
     # ---- C08.b cursor discipline / C08.d final check (loads with the element parser summarised)
     dfi = prog.func('iso8583._iso8583_to_dict') if prog.has_func('iso8583._iso8583_to_dict') else prog.func('iso8583.loads')
 
+    seen = {'b': 0, 'c': 0}
+
     def chk_b(p, mode):
         fails = []
         st = p.store
@@ -172,6 +180,7 @@ def check(prog, res, tier):
             calls = [e for e in p.events if e.kind == 'unit-call' and e.data['unit'] == fname and first < e.seq < last]
             if not calls:
                 continue
+            seen['b'] += mode == 'inv'
             call = calls[-1]
             arg = call.data['args'][2] if len(call.data['args']) > 2 else None
             if not (isinstance(arg, SeqV) and len(arg.segs) <= 1):
@@ -203,8 +212,10 @@ def check(prog, res, tier):
                 fails.append(Failure('the element parser is not handed message_data[cursor:] / the cursor does not advance '
                                      'by exactly the returned increment', node=call.node, neg=[[]]))
         return fails
-    res.add(du.loads.judge('C08.b', 'each element is parsed from data[cursor:] and the cursor advances by exactly the '
-                                    'returned increment', func_where(dfi), 'message_pointer += message_increment', chk_b))
+    res.add(require_instances(
+        du.loads.judge('C08.b', 'each element is parsed from data[cursor:] and the cursor advances by exactly the '
+                                'returned increment', func_where(dfi), 'message_pointer += message_increment', chk_b),
+        seen['b'], 'a loop iteration of the message parser that calls the element parser'))
 
     cursor_names = set()
 
@@ -250,6 +261,7 @@ def check(prog, res, tier):
     res.add(flagged_parsed_ob(prog, res, du, dfi))
 
     # ---- C08.f sub-element tiling
+    seen_f = {}
     for key, title in (('pds', 'PDS sub-elements tag(4) length(3) value(L) tile the carrier; cursor steps by 7+L'),
                        ('icc', 'ICC TLV parts tag(1|2) length(1) value(L) tile the field; cursor steps by t+1+L')):
         if key not in du.units:
@@ -262,6 +274,7 @@ def check(prog, res, tier):
             src = args[0].segs[0].src
             fails = []
             for first, last, s0, s1, head in iterations(p, func=u.name):
+                seen_f[u.name] = seen_f.get(u.name, 0) + (mode == 'inv')
                 curs = [(k, g) for k, g in s0.items() if k[0] == 'local' and isinstance(g, IntV)
                         and isinstance(s1.get(k), IntV)]
                 if len(curs) != 1:
@@ -288,7 +301,8 @@ def check(prog, res, tier):
                 fails += need_eq0(st, post.lin - top, f'cursor after the sub-element is {st.canon(post.lin)}, parts end at '
                                                       f'{st.canon(top)}', head.node)
             return fails
-        res.add(u.runs.judge('C08.f', title, func_where(u.fi), 'field_pointer += ...', chk_f, rule=f'C08.f.{key}'))
+        res.add(require_instances(u.runs.judge('C08.f', title, func_where(u.fi), 'field_pointer += ...', chk_f, rule=f'C08.f.{key}'),
+                                  seen_f.get(u.name), 'a loop iteration of the sub-element walk'))
 
         def chk_exit(p, mode, u=u):
             """leaving the walk through its loop condition means no unread bytes remain"""
@@ -300,6 +314,14 @@ def check(prog, res, tier):
             if mode == 'inv':
                 exits = [e for e in p.events if e.kind == 'loop-exit' and e.under(u.name) and e.data['how'] == 'cond']
                 heads = [e for e in p.events if e.kind == 'loop-head' and e.under(u.name)]
+                if not exits and heads:
+                    # `while True: if not cursor < len(data): break`: a break that is only taken when nothing is left plays the
+                    # part of the loop condition (a break that leaves data behind, like the ICC stop tag, is not judged here)
+                    brk = [e for e in p.events if e.kind == 'loop-exit' and e.under(u.name) and e.data['how'] == 'break']
+                    ints = [g for k, g in heads[-1].data['gen'].items() if k[0] == 'local' and isinstance(g, IntV)]
+                    if brk and ints and all(st.prove_ge0(c.lin - src.length) for c in ints):
+                        seen_f[u.name + '.exit'] = seen_f.get(u.name + '.exit', 0) + 1
+                    return []
                 if not exits or not heads:
                     return []
                 curs = [g for k, g in heads[-1].data['gen'].items() if k[0] == 'local' and isinstance(g, IntV)]
@@ -314,13 +336,16 @@ def check(prog, res, tier):
                 for k, g in heads[-1].data['gen'].items():
                     if k[0] == 'local' and isinstance(g, IntV):
                         chk_exit.names.add(k[1])
+            seen_f[u.name + '.exit'] = seen_f.get(u.name + '.exit', 0) + (mode == 'inv' and bool(curs))
             for c in curs:
                 fails += need_ge0(st, c.lin - src.length, f'the sub-element walk stops at offset {st.canon(c.lin)} although '
                                                           f'{st.canon(src.length)} bytes are present: trailing sub-elements are dropped')
             return fails
         chk_exit.names = set()
-        res.add(u.runs.judge('C08.f', f'{key.upper()} walk: leaving the loop through its condition means the whole field was consumed',
-                             func_where(u.fi), 'while field_pointer < len(field_data)', chk_exit, rule=f'C08.f.exit.{key}'))
+        res.add(require_instances(
+            u.runs.judge('C08.f', f'{key.upper()} walk: leaving the loop through its condition means the whole field was consumed',
+                         func_where(u.fi), 'while field_pointer < len(field_data)', chk_exit, rule=f'C08.f.exit.{key}'),
+            seen_f.get(u.name + '.exit'), 'an exit of the sub-element walk through its loop condition with an integer cursor'))
 
 
 def flagged_parsed_ob(prog, res, du, dfi):
@@ -352,6 +377,10 @@ def flagged_parsed_ob(prog, res, du, dfi):
         ob.verdict, ob.detail = UNDECIDED, f'construct outside the interpreted fragment: {unk[0][0]}'
     elif not seen:
         ob.verdict, ob.detail = UNDECIDED, 'no test of the element flag observed in the element loop'
+    elif any(r.get('extra_filters') for r in recs) and not bad:
+        e = next(r['extra_filters'][0] for r in recs if r.get('extra_filters'))
+        ob.verdict, ob.detail = UNDECIDED, (f'the collection the element loop runs over is built with the filter `{e.data["text"]}`, which is not '
+                                            'the test of the element\'s own bitmap flag: it is not shown that no flagged element is dropped')
     elif bad:
         r = bad[0]
         other = r.get('other_tests')
